@@ -34,7 +34,7 @@ ASSUMPTIONS = [
 ]
 TRUSTED = ["correspondence harness harness/h_codec.c + tools/lib/vf.py (return code, value, consumed count / new read mark, "
            "encoded octets, fill mark; which errno a failing decode reports is compared only for 'illegal sequence')"]
-DESIGN_REF = "DESIGN.md section 8, C14"
+DESIGN_REF = "DESIGN.md section 0.2 (as built) and section 8, C14"
 TECHNIQUE = "Lean 4 proof by strong induction on the value / induction on the octet string (round trip, canonicity, decoder agreement, bounds) + differential correspondence"
 LEVEL_TEXT = ("Machine-checked proof over the Lean model of variable-length-integer.c: encode is the canonical minimal LEB128 form whose "
               "length equals the length query (<= 5 / <= 10), both decoders invert it consuming exactly the encoding (any surrounding "
